@@ -5,6 +5,7 @@ then rendered to text under a chosen layout, delimiter, quoting, header, decimal
 transaction list is known by construction.  The spec is built by the real parse_format_string + resolve_source_format and
 the file is read by the real parse_generic_csv.  Metamorphic: deleting / inserting malformed rows never changes the others.
 """
+import calendar
 import csv
 import io
 import math
@@ -129,7 +130,10 @@ def gen_rows(rnd, lay, conv, n, short_ok=True):
         kind = rnd.choices(['ok', 'short', 'long', 'blank', 'baddate', 'emptydesc', 'badamt', 'zero', 'nonfinite'], [12, 1, 1, 1, 1, 1, 1, 1, 1])[0]
         if kind == 'short' and not short_ok:
             kind = 'ok'
-        dt = datetime(rnd.choice([2023, 2024, 2025]), rnd.randint(1, 12), rnd.randint(1, 28))
+        yy, mm = rnd.choice([2023, 2024, 2025]), rnd.randint(1, 12)
+        dt = datetime(yy, mm, rnd.randint(1, calendar.monthrange(yy, mm)[1]))          # month ends included
+        if rnd.random() < .04:
+            dt = rnd.choice([datetime(2024, 2, 29), datetime(2024, 2, 15), datetime(2024, 12, 31), datetime(2025, 1, 1)])
         desc = rnd.choice(DESCS)
         x = round(rnd.choice([1, -1]) * rnd.choice([0.01, 5, 12.5, 999.99, 1234.56, 1234567.8, 1000, 0.1, 20.0, 1.5, 2.25, 1500, 2250, 12500, 1.0]), 2)
         cells, fields = [''] * ncols, {}
